@@ -20,7 +20,7 @@ import objops
 import objsession as S
 from common import Ctx, Outcome
 
-DRIVERS = ["CoupledList"]
+DRIVERS = ["CoupledList", "Accessor"]
 TABLES = True
 RULE = ("seeded operation sequences (append / insert at every index in [-n-2, n+2] / item assignment / deletion / "
         "creation / clear / moves of existing objects between parents) over the coupled list relations of the corpus "
@@ -521,7 +521,8 @@ def run(ctx: Ctx) -> Outcome:
     meta: list = []
     for key, nh, ns in (THOROUGH if ctx.thorough else QUICK):
         for h in range(nh):
-            S.run_history(ctx, out, key, ns, [ListMonitor(out, ctx, req, impl, meta), ReloadMonitor(out, ctx)], weights=W, hist_id=h)
+            import accsession
+            S.run_history(ctx, out, key, ns, [ListMonitor(out, ctx, req, impl, meta), accsession.AccessorTie(out), ReloadMonitor(out, ctx)], weights=W, hist_id=h)   # the tie ends before ReloadMonitor saves (save swaps fragment roots)
     for key in (["t52", "t50", "write"] if ctx.thorough else ["t50"]):
         unique_scenarios(ctx, out, key, ctx.pick(6, 30))
         shared_tag_scenarios(ctx, out, key, ctx.pick(6, 30), req, impl, meta)
